@@ -205,7 +205,7 @@ func c20ExecuteSlow(e *executor.DefaultExecutor, ctx context.Context, job *execu
 	x.EventName, _ = job.Env.Get("EventName").(string)
 	x.EventPath, _ = job.Env.Get("EventPath").(string)
 	c20Started = append(c20Started, x)
-	time.Sleep(time.Millisecond) // descheduled while the command runs (a voluntary switch, also at preemption bound 0)
+	rt.Yield() // a preemption point: with bound 0 the command runs through, with bound >= 1 another thread may run here
 	if rt.CtxCancelled(ctx) {
 		return nil, ctx.Err()
 	}
